@@ -24,6 +24,7 @@ include!("c10_parts/run.rs");
 include!("c10_parts/sweep.rs");
 include!("c10_parts/binop.rs");
 include!("c10_parts/layout.rs");
+include!("c10_parts/layout2.rs");
 
 // ---- hook H2 switch -------------------------------------------------------------------------------
 // `on`: /repo contains the H2 hook (koto_parser::verif, commit "verif hook H2"); `off`: the (K)
